@@ -16,13 +16,13 @@ def run(tier, seed):
     rng = random.Random(seed * 7919 + 16)
     quick = tier != 'thorough'
     items, asts = [], []
-    for i in range(280 if quick else 1500):
+    for i in range(280 if quick else 700):
         s = rng.randrange(1 << 30)
         ast, src = genprog.gen_wait_program(s)
         items.append(('wait:%d' % s, src, [rng.choice(['-O0', '-O1', '-O2', '-O3', '-O3']), '-feof-support']))
         asts.append(ast)
     # general programs that use wait among other constructs
-    g_items, g_asts = c01.gen_items(rng, 70 if quick else 400, {'str', 'int', 'hook', 'regex', 'case', 'opt', 'loop', 'try', 'wait', 'if', 'condact', 'idiom', 'end'})
+    g_items, g_asts = c01.gen_items(rng, 70 if quick else 180, {'str', 'int', 'hook', 'regex', 'case', 'opt', 'loop', 'try', 'wait', 'if', 'condact', 'idiom', 'end'})
     items += g_items
     asts += g_asts
     progs = runner.compile_programs(items, want=('machine', 'codegen'))
